@@ -77,7 +77,9 @@ def safe_readable(handle):
     """Attempts to find if the handle is readable without throwing an error."""
     try:
         status = handle.readable()
-    except (OSError, ValueError):
+    except (OSError, ValueError, AttributeError):
+        # AttributeError: an integer (file descriptor or subprocess.STDOUT
+        # standing for ``e>o``), not a file object
         status = False
     return status
 
